@@ -94,6 +94,9 @@ type Hooks struct {
 	NewInst func(xml string, vars map[string]any) (*Inst, error)
 	// SkipVarCheck disables the final variable comparison.
 	SkipVarCheck bool
+	// AllowOtherErrors: error traces other than gateway / task errors are not a
+	// failure (e.g. conditions that cannot be evaluated by design of the case).
+	AllowOtherErrors bool
 	// KeepAlive: do not cancel/close the instance (caller does).
 	KeepAlive bool
 }
@@ -403,6 +406,22 @@ func RunLockstep(c *Case, pick func(n int) int, hk *Hooks) *Outcome {
 	}
 	if miss, extra := multisetDiff(m.AllLandmarks, sum.Landmarks); len(miss)+len(extra) > 0 {
 		return fail("landmarks", fmt.Sprintf("sub-process completions: missing %v extra %v", miss, extra), gs)
+	}
+	// error traces: one per token that found no effective flow at an exclusive /
+	// inclusive gateway (naming the gateway), one per task answer carrying an error
+	var gotErr, unexpected []string
+	for _, e := range sum.Errors {
+		if strings.HasPrefix(e, "other:") {
+			unexpected = append(unexpected, e)
+		} else {
+			gotErr = append(gotErr, e)
+		}
+	}
+	if miss, extra := multisetDiff(m.AllErrors, gotErr); len(miss)+len(extra) > 0 {
+		return fail("errors", fmt.Sprintf("error traces: missing %v extra %v", miss, extra), gs)
+	}
+	if len(unexpected) > 0 && !hk.AllowOtherErrors {
+		return fail("unexpected-error", fmt.Sprint(unexpected), gs)
 	}
 	if hk.BeforeClose != nil {
 		hk.BeforeClose(in, m, out)
